@@ -62,8 +62,10 @@ pub fn cross(toks: &[&str]) -> String {
     let space = sp.iter().find(|s| s.0==btype || (btype=="fat" && s.0=="fat1")).expect("block type not in first label");
     let valid = &space.1;
     let mut rng = Rng(seed);
+    // a small working set is rewritten often (stale tails, overwrite order), the rest is spread over the disk
+    let hot: Vec<(Addr,usize)> = (0..6).map(|_| valid[rng.below(valid.len())]).collect();
     for _op in 0..nops {
-        let (a,unit) = valid[rng.below(valid.len())];
+        let (a,unit) = if rng.below(2)==0 { hot[rng.below(hot.len())] } else { valid[rng.below(valid.len())] };
         let len = match rng.below(4) { 0 => 1 + rng.below(unit), 1 => unit + rng.below(9), _ => unit };
         let d = rng.bytes(len);
         for (i,img) in imgs.iter_mut().enumerate() {
